@@ -129,10 +129,11 @@ for k, v in R9.items():
 # Rounds 12-13 (DESIGN.md section 4a).
 R12 = {
  'C01': 'object-level history: one decoded certificate validated repeatedly (all ordered pairs quick, triples thorough) over a menu of calls that differ in issuer resources under the same key, issuer key, instant, strictness and entry point, on the same object, on the certificate inside the returned ResourceCert and on clones, against a freshly decoded twin and the model (object.history)',
- 'C02': 'object-level history with issuers of the same key and different validated resources (object.history / history.independence)',
+ 'C02': 'object-level history with issuers of the same key and different validated resources (object.history / history.independence); fold-colliding digests under a signature made over them (history.fold_collision)',
+ 'C04': 'the order of a keyed list as a dimension of the time clause: CRL serial families listed descending / zigzag / in two runs / stride-permuted against the same family ascending, ladder to 262 144 entries (time.growth)',
  'C07': 'every prefix length x addresses singled out by meaning (IPv4-mapped, IPv4-compatible, NAT64, 6to4, loopback, link-local, multicast, private ...) through every reader (roundtrip.address_grid)',
  'C10': 'the number of earlier successful calls on one live signer instance, N messages in a row across the powers of two (signer.call_count)',
- 'C14': 'every BER respelling of the eContent crossed with every kind of excluded file name at every list position (content.ber_spellings)',
+ 'C14': 'every BER respelling of the eContent crossed with every kind of excluded file name at every list position (content.ber_spellings); every octet pair at adjacent positions and UTF-8 spellings of letter-like characters in names (names.octets)',
  'C15': 'the total size of a document around every power of two up to 32 MiB (256 MiB) reached in several ways, through every serialise x parse route (json.total_size)',
  'C17': 'every octet value at every position and every octet pair at adjacent positions of the time seeds (time.octets)',
 }
